@@ -236,7 +236,46 @@ func (en *Engine) lenIs(st *State, dst *AllocV, fn string, enc Val, of Val) bool
 	if !ok || !strings.HasSuffix(cv.Callee, "base64.Encoding)."+fn) || len(cv.Args) != 2 {
 		return false
 	}
-	return cv.Args[0].Key() == enc.Key() && cv.Args[1].Key() == mkLen(st, of, tInt).Key()
+	if cv.Args[0].Key() != enc.Key() {
+		return false
+	}
+	if cv.Args[1].Key() == mkLen(st, of, tInt).Key() {
+		return true
+	}
+	// buf.Len() for len(buf.Bytes()) of the same buffer, nothing written to it in between
+	lc, ok1 := cv.Args[1].(*CallV)
+	bc, ok2 := of.(*CallV)
+	if ok1 && ok2 && lc.Callee == "(*bytes.Buffer).Len" && bc.Callee == "(*bytes.Buffer).Bytes" && len(lc.Args) == 1 && len(bc.Args) == 1 && lc.Args[0].Key() == bc.Args[0].Key() {
+		seen := false
+		for _, e := range st.events {
+			if e.Kind != EvCall {
+				continue
+			}
+			if len(e.Res) > 0 && e.Res[0].Key() == lc.Key() {
+				seen = true
+				continue
+			}
+			if !seen {
+				continue
+			}
+			ct := lookupContract(e.Callee)
+			for i, a := range e.Args {
+				if a == nil || stripIface(a).Key() != lc.Args[0].Key() {
+					continue
+				}
+				if ct == nil {
+					return false
+				}
+				for _, w := range ct.Writes {
+					if w == i {
+						return false
+					}
+				}
+			}
+		}
+		return seen
+	}
+	return false
 }
 
 func (en *Engine) emptySlice(st *State, v Val) bool {
